@@ -5,6 +5,9 @@ import LentilVerif.Lemmas.Reduce
 import LentilVerif.Lemmas.ReduceZ
 import LentilVerif.Gen.FieldMerge
 import LentilVerif.Gen.FieldDispatch
+import LentilVerif.Lemmas.FieldBroadcast
+import LentilVerif.Gen.FieldMulArray
+import LentilVerif.Gen.FieldInit
 import Mathlib.Algebra.Ring.Defs
 import Mathlib.Tactic.SplitIfs
 import Mathlib.Algebra.GroupWithZero.Defs
@@ -29,6 +32,32 @@ theorem arrayExtent_mem (s0 s1 o0 o1 r c : Int) :
     exact ⟨r + s0 / 2 - o0, c + s1 / 2 - o1, by simp only at h; omega, by simp only at h; omega,
       by simp only at h; omega, by simp only at h; omega, by omega, by omega⟩
   · rintro ⟨i, j, hi0, hi1, hj0, hj1, h1, h2⟩; simp only; omega
+
+/-- **`Field.__init__`, regenerated from the source (`Gen.fieldInit`: `self.offset = offset if offset is not None else [0, 0]`,
+`self.extent = lentil.extent.array_extent(self.shape, self.offset)`): the extent a `Field` caches at construction is the
+model's `Fld.extent`, i.e. exactly the set of global pixel positions of its data** (origin sample at index `floor(n/2)`,
+shifted by the offset the field keeps); every theorem of this file that speaks about `f.extent` / `f.emb` speaks about that
+cached value. Building the extent from another shape/offset, or keeping another offset than the one given, changes
+`Gen.fieldInit` and breaks this proof. -/
+theorem field_init_extent_spec {K : Type} (f : Fld K) (r c : Int) :
+    (Gen.fieldInit f.arr.s0 f.arr.s1 f.o0 f.o1).1 = (f.o0, f.o1) ∧
+    f.extent = .ofT (Gen.fieldInit f.arr.s0 f.arr.s1 f.o0 f.o1).2 ∧
+    ((Extent.ofT (Gen.fieldInit f.arr.s0 f.arr.s1 f.o0 f.o1).2).mem r c ↔
+      ∃ i j, 0 ≤ i ∧ i < f.arr.s0 ∧ 0 ≤ j ∧ j < f.arr.s1 ∧ (i - f.arr.s0 / 2 + f.o0 = r ∧ j - f.arr.s1 / 2 + f.o1 = c)) :=
+  ⟨rfl, rfl, arrayExtent_mem f.arr.s0 f.arr.s1 f.o0 f.o1 r c⟩
+
+/-- **the default of `Field.__init__` (`offset=None`)**: the field is centred on the origin — offset `[0, 0]` and the extent
+of an unshifted array (what `Wavefront.__init__` and `Plane` rely on when they build fields without an offset) -/
+theorem field_init_default_spec (s0 s1 r c : Int) :
+    Gen.fieldInitDefault s0 s1 = Gen.fieldInit s0 s1 0 0 ∧
+    ((Extent.ofT (Gen.fieldInitDefault s0 s1).2).mem r c ↔
+      ∃ i j, 0 ≤ i ∧ i < s0 ∧ 0 ≤ j ∧ j < s1 ∧ (i - s0 / 2 = r ∧ j - s1 / 2 = c)) := by
+  refine ⟨rfl, ?_⟩
+  have h := arrayExtent_mem s0 s1 0 0 r c
+  simp only [Int.add_zero] at h
+  exact h
+example : Gen.fieldInit 2 3 1 1 = ((1, 1), (0, 1, 0, 2)) ∧ Gen.fieldInitDefault 2 3 = ((0, 0), (-1, 0, -1, 1)) ∧
+    Gen.fieldInitDefault 1 1 = ((0, 0), (0, 0, 0, 0)) := ⟨rfl, rfl, rfl⟩
 
 /-- the overlap test is true iff the two extents have a common pixel -/
 theorem intersect_iff (a b : Extent) (ha : a.rmin ≤ a.rmax ∧ a.cmin ≤ a.cmax) (hb : b.rmin ≤ b.rmax ∧ b.cmin ≤ b.cmax) :
@@ -295,6 +324,88 @@ theorem mul_dispatch_spec (a b : Fld K) :
 example : (Ex.B.size, Ex.A.size, (⟨⟨1, 1, fun _ _ => (3 : Int)⟩, 7, -7⟩ : Fld Int).size) = (6, 4, 1) := by decide
 example : Gen.mulBothOne 1 1 = true ∧ Gen.mulBothOne 1 6 = false ∧ Gen.mulScalarSame 100000 7 0 100000 7 1 = true ∧
     Gen.mulScalarSame 100000 7 0 100001 7 0 = false := by decide
+
+/-- **`lentil.field._mul_broadcast`, regenerated from the source (`Gen.mulBroadcast`), is the broadcast step of the hand model
+`Fld.mul`** — for all fields that `Field.__mul__` sends to `_mul_array` (not both one-element): the operands the generated
+function returns (`Fld.genBroadcast`: flag "data is `np.broadcast_to` of the single sample", shape, offset of each) are
+exactly the model's `a' = if a.size1 then a.broadcastTo b else a`, `b' = if b.size1 then b.broadcastTo a' else b` — data,
+shape and **inherited offset** alike. An edit of the shape test, of either `size == 1` test, of a `broadcast_to` target or of
+an `X_offset = Y_offset` line of `_mul_broadcast` changes `Gen.mulBroadcast` and breaks this proof. -/
+theorem mul_broadcast_spec (a b : Fld K) (h : Gen.mulBothOne a.size b.size = false) :
+    a.genBroadcast b =
+      (let a' := if a.size1 then a.broadcastTo b else a
+       let b' := if b.size1 then b.broadcastTo a' else b
+       (a', b')) := by
+  rw [Fld.mulBothOne_eq] at h
+  have ea : decide (a.size = 1) = a.size1 := by
+    rw [Bool.eq_iff_iff, decide_eq_true_eq]; exact Fld.size_eq_one_iff_size1 a
+  have eb : decide (b.size = 1) = b.size1 := by
+    rw [Bool.eq_iff_iff, decide_eq_true_eq]; exact Fld.size_eq_one_iff_size1 b
+  obtain ⟨⟨a0, a1, ag⟩, ao0, ao1⟩ := a
+  obtain ⟨⟨b0, b1, bg⟩, bo0, bo1⟩ := b
+  simp only [Fld.genBroadcast, Gen.mulBroadcast, ea, eb]
+  simp only [Fld.size1] at h ⊢
+  by_cases ha : (decide (a0 = 1) && decide (a1 = 1)) = true <;> by_cases hb : (decide (b0 = 1) && decide (b1 = 1)) = true
+  · simp [ha, hb] at h
+  · have hs : (decide (a0 = b0) && decide (a1 = b1)) = false := by
+      simp only [Bool.and_eq_true, decide_eq_true_eq, Bool.and_eq_false_iff, decide_eq_false_iff_not] at ha hb ⊢
+      omega
+    simp [ha, hb, hs, Fld.ofBroadcast, Fld.broadcastTo]
+  · have hs : (decide (a0 = b0) && decide (a1 = b1)) = false := by
+      simp only [Bool.and_eq_true, decide_eq_true_eq, Bool.and_eq_false_iff, decide_eq_false_iff_not] at ha hb ⊢
+      omega
+    simp [ha, hb, hs, Fld.ofBroadcast, Fld.broadcastTo]
+  · by_cases hs : (decide (a0 = b0) && decide (a1 = b1)) = true <;> simp [ha, hb, hs, Fld.ofBroadcast]
+
+/-- **`Field.__mul__` through the regenerated `_mul_broadcast`**: whenever the generated dispatch test sends the product to
+`_mul_array`, the model product is `_mul_array`'s overlap product of the two operands the generated `_mul_broadcast` returns
+(so `mul_emb` / `mul_sem` / `mul_empty_iff` speak about the operands the source computes) -/
+theorem mul_via_gen_broadcast (a b : Fld K) (h : Gen.mulBothOne a.size b.size = false) :
+    a.mul b = (a.genBroadcast b).1.mulArr (a.genBroadcast b).2 := by
+  rw [mul_broadcast_spec a b h]; simp only [Fld.mul, h]; rfl
+/-- the hypothesis is satisfiable, with and without a broadcast: a (1,1) field against a 2×3 field inherits its shape and
+offset (flag 1); two arrays of different shape are left alone; two arrays of EQUAL shape are left alone too;
+a one-element SECOND operand inherits from the first -/
+example : Gen.mulBothOne 1 6 = false ∧
+    Gen.mulBroadcast 1 1 1 7 (-7) 2 3 6 (-1) 4 = (1, (2, 3), (-1, 4), 0, (2, 3), (-1, 4)) ∧
+    Gen.mulBroadcast 2 2 4 7 (-7) 2 3 6 (-1) 4 = (0, (2, 2), (7, -7), 0, (2, 3), (-1, 4)) ∧
+    Gen.mulBroadcast 2 3 6 7 (-7) 2 3 6 (-1) 4 = (0, (2, 3), (7, -7), 0, (2, 3), (-1, 4)) ∧
+    Gen.mulBroadcast 2 3 6 7 (-7) 1 1 1 (-1) 4 = (0, (2, 3), (7, -7), 1, (2, 3), (7, -7)) := ⟨rfl, rfl, rfl, rfl, rfl⟩
+
+/-- **`Field._mul_array` after its `_mul_broadcast` call, regenerated from the source (`Gen.mulArrayIdx`: the two
+`array_extent` calls, the `intersect` test, `intersection_slices`, `intersection_shift`), is the index flow of the hand model
+`Fld.mulArr`** — for all fields: the model product is empty exactly when the generated function returns `none`, and otherwise
+reads both operands through the generated slices (`self_data[self_slice] * other_data[other_slice]`) and carries the generated
+offset. Swapping the operands of a call, taking the slices or the shift from another extent, or building an extent from the
+wrong shape/offset changes `Gen.mulArrayIdx` and breaks this proof. -/
+theorem mul_array_spec (a b : Fld K) :
+    a.mulArr b = (Gen.mulArrayIdx a.arr.s0 a.arr.s1 a.o0 a.o1 b.arr.s0 b.arr.s1 b.o0 b.o1).map fun t =>
+      { arr := { s0 := t.1.1.2 - t.1.1.1, s1 := t.1.2.2 - t.1.2.1,
+                 get := fun i j => a.arr.get (i + t.1.1.1) (j + t.1.2.1) * b.arr.get (i + t.2.1.1.1) (j + t.2.1.2.1) },
+        o0 := t.2.2.1, o1 := t.2.2.2 } := by
+  have key : Gen.mulArrayIdx a.arr.s0 a.arr.s1 a.o0 a.o1 b.arr.s0 b.arr.s1 b.o0 b.o1 =
+      if intersect a.extent b.extent then
+        some ((intersectionSlices a.extent b.extent).1, (intersectionSlices a.extent b.extent).2,
+          intersectionShift a.extent b.extent)
+      else none := rfl
+  rw [key]; dsimp only [Fld.mulArr]
+  cases intersect a.extent b.extent <;> rfl
+
+/-- **`Field.__mul__` → `_mul_array` end to end on generated definitions**: dispatch test (`Gen.mulBothOne`), broadcast
+(`Gen.mulBroadcast` through `Fld.genBroadcast`) and index flow (`Gen.mulArrayIdx`) -/
+theorem mul_via_gen (a b : Fld K) (h : Gen.mulBothOne a.size b.size = false) :
+    a.mul b =
+      let a' := (a.genBroadcast b).1
+      let b' := (a.genBroadcast b).2
+      (Gen.mulArrayIdx a'.arr.s0 a'.arr.s1 a'.o0 a'.o1 b'.arr.s0 b'.arr.s1 b'.o0 b'.o1).map fun t =>
+        { arr := { s0 := t.1.1.2 - t.1.1.1, s1 := t.1.2.2 - t.1.2.1,
+                   get := fun i j => a'.arr.get (i + t.1.1.1) (j + t.1.2.1) * b'.arr.get (i + t.2.1.1.1) (j + t.2.1.2.1) },
+          o0 := t.2.2.1, o1 := t.2.2.2 } := by
+  rw [mul_via_gen_broadcast a b h, mul_array_spec]
+/-- a 2×2 array at the origin against a 2×3 array one row down, one column right: rows 1..2 / columns 1..2 of the first,
+rows 0..1 / columns 0..1 of the second, product centred at (0, 0) … ; wholly separate arrays: `none` -/
+example : Gen.mulArrayIdx 2 2 0 0 2 3 1 1 = some (((1, 2), (1, 2)), ((0, 1), (0, 1)), (0, 0)) ∧
+    Gen.mulArrayIdx 2 2 0 0 2 3 5 5 = none := ⟨rfl, rfl⟩
 
 end translate
 
